@@ -63,6 +63,17 @@ def conc_scenarios():
         ('PUT inventories dropping class || PUT allocations on it',
          reqs.put_invs(P(1), 1, {}), reqs.put_alloc(K(1), {P(1): {'VCPU': 1}})),
         ('DELETE allocations || DELETE provider', reqs.del_alloc(K(9)), reqs.del_rp(P(1))),
+        # removal of a consumer's allocations (and of its record) racing with a replacement
+        ('DELETE allocations || PUT allocations of that consumer (own generation)',
+         reqs.del_alloc(K(9)), reqs.put_alloc(K(9), {P(1): {'VCPU': 2}}, cgen=1)),
+        ('DELETE allocations || PUT allocations of that consumer @1.12',
+         reqs.del_alloc(K(9)), reqs.put_alloc(K(9), {P(1): {'VCPU': 2}}, mv='1.12')),
+        ('DELETE allocations || POST allocations moving that consumer',
+         reqs.del_alloc(K(9)),
+         reqs.post_allocs({K(9): {'allocs': {}, 'cgen': 1},
+                           K(1): {'allocs': {P(1): {'VCPU': 1}}}})),
+        ('PUT allocations clear || PUT allocations of that consumer @1.12',
+         reqs.put_alloc(K(9), {}, cgen=1), reqs.put_alloc(K(9), {P(1): {'VCPU': 2}}, mv='1.12')),
     ]
     out = []
     for name, a, b in pairs:
@@ -70,7 +81,10 @@ def conc_scenarios():
         a['tag'] = name.split(' || ')[0]
         b['tag'] = name.split(' || ')[1]
         setup = base
-        if 'DELETE allocations' in name:
+        if 'allocations of that consumer' in name or 'moving that consumer' in name:
+            setup = base + [reqs.put_alloc(K(9), {P(1): {'VCPU': 1}}),
+                            reqs.put_alloc(K(8), {P(1): {'VCPU': 1}})]
+        elif 'DELETE allocations' in name:
             setup = base + [reqs.put_alloc(K(9), {P(1): {'VCPU': 1}})]
         out.append({'name': name, 'setup': setup, 'requests': [a, b], 'bound': None,
                     'max_exec': 4000})
